@@ -191,6 +191,10 @@ func (c *compiler) compileTryStatement(v *ast.TryStatement, needResult bool) {
 		if bodyNeedResult && finallyBreaking != nil && lp == -1 {
 			c.emit(clearResult)
 		}
+		// The override of break/continue by a finally block that itself ends in a break or continue applies to
+		// the try block and the catch clause only. Branch statements inside the finally block complete on
+		// their own (nothing has overridden them yet) and must be patched to their own targets.
+		c.block.breaking = nil
 		c.compileBlockStatement(v.Finally, false)
 		c.emit(leaveFinally{})
 	} else {
